@@ -1,6 +1,8 @@
 """C05 helpers: histories over IndexedData and over live histogram / profile viewers."""
 from types import SimpleNamespace
 
+from echo import delay_callback
+
 import numpy as np
 
 from glue.core import DataCollection
@@ -279,8 +281,12 @@ def run_hist_history(ctx, hid):
         num = H.model.names("float", "int", "pos")
         vs.x_att = d.id[rng.choice(num)]
         vs.hist_n_bin = rng.choice([2, 3, 5])
-        vs.hist_x_min = rng.choice([-6.0, -3.0, 0.0])
-        vs.hist_x_max = vs.hist_x_min + rng.choice([4.0, 8.0, 12.0])
+        # both limits in one step: a transient range with equal limits (new minimum == the maximum glue derived from the
+        # data) makes Data.compute_histogram crash the process inside fast_histogram
+        lo_ = rng.choice([-6.0, -3.0, 0.0])
+        with delay_callback(vs, "hist_x_min", "hist_x_max"):
+            vs.hist_x_min = lo_
+            vs.hist_x_max = lo_ + rng.choice([4.0, 8.0, 12.0])
 
         def verify(mut):
             rm = W.RefMap(live.datas)
@@ -331,10 +337,10 @@ def run_hist_history(ctx, hid):
                     val = rng.choice([x for x in [2, 3, 4, 5, 7] if x != vs.hist_n_bin])
                     call = lambda: setattr(vs, "hist_n_bin", val)
                 elif what == "hist_x_min":
-                    val = rng.choice([-8.0, -5.0, -2.0, -1.0])
+                    val = rng.choice([x for x in [-8.0, -5.0, -2.0, -1.0] if x != vs.hist_x_max])
                     call = lambda: setattr(vs, "hist_x_min", val)
                 elif what == "hist_x_max":
-                    val = rng.choice([1.0, 3.0, 6.0, 11.0])
+                    val = rng.choice([x for x in [1.0, 3.0, 6.0, 11.0] if x != vs.hist_x_min])
                     call = lambda: setattr(vs, "hist_x_max", val)
                 else:
                     val = not getattr(vs, what)
